@@ -24,6 +24,11 @@ TEXT = {
   technique='property-based testing: generated workspace trees x {plain, RockRidge, Joliet, both} x start offset finalized through the library, then read back with the library reader (exact names / level-1 mapping, contents, link targets) and with an independent PVD/directory-record walker (extents inside the image, no overlap, same contents)',
   level_text='Generated search with a round-trip oracle and an independent on-disk parser. Exploration.',
   level_note='Trusts the harness ISO9660 walker (ECMA-119 layout) and the level-1 name rule stated in the harness.'),
+ 'C07': dict(
+  design_ref='DESIGN.md §4 C07',
+  technique='property-based testing: generated workspace trees finalized under 1-2 generated option variants (compressor, fragments, NoCompress*, block size, cache size, start) and read back; round trip against the source model, metamorphic agreement between variants, independent superblock parse against the device write log',
+  level_text='Generated search with round-trip + metamorphic + independent superblock oracles. Exploration.',
+  level_note='Trusts the harness superblock parser and the device write log.'),
  'C08': dict(
   design_ref='DESIGN.md §4 C08',
   technique='property-based testing with an independent oracle: the C01 history generator drives the library while a harness-side FAT parser (BPB, both FATs, FSInfo, backup boot sector, directory walk, cluster ownership map) re-checks the raw bytes after every step',
